@@ -601,6 +601,13 @@ func c07(w *core.World, r *core.Report) {
 	}
 	r.Rule("R07.6", "the replay's start offset is the cache reader's reported position, and that is the requested offset (log reader) or the snapshot's own offset", 3)
 	ruleReplayStartOffset(w, r)
+	r.Rule("R17.3", "stale-checkpoint collection never removes the newest entry of an id a source still reports: the stored position would fall back to an older one (shared with C17)", 4)
+	ruleStaleGC(w, r)
+	r.Rule("R12.1", "the offsets stored are command boundaries only if the decoder counts every byte it consumes (shared with C12)", 4)
+	for _, df := range decoderMethods(w) {
+		r.Analysed(core.FuncName(df))
+		ruleReadOffsetPairing(w, r, df)
+	}
 	r.Rule("R07.3", "full-sync completion stores the snapshot's offset (reader.Left()) and nothing else", 1)
 	if f := fn(w, r, "(*syncer.RedisOutput).sendRdb"); f != nil {
 		n := 0
@@ -821,6 +828,19 @@ func c02(w *core.World, r *core.Report) {
 	r.Rule("R02.6", "barrier flush precedes queuing of the barrier item and its error edge returns", 2)
 	if c != nil {
 		ruleBarrierFlush(w, r, c)
+	}
+	// a restart resumes at the stored position, in the stored database, from the right place of the stream:
+	// the re-keying rules of C17, the (re)connection decision rules of C06 and the mode wiring of C09 are
+	// obligations of C02 as well
+	ruleUpdateCheckpoint(w, r, "R17.1", "R17.2")
+	r.Rule("R06.3", "PSYNC argument choice and cache clearing on every successful path of syncMeta (shared with C06)", 3)
+	r.Rule("R06.4", "reader start / writer offset / snapshot size definitions on every successful path of syncMeta (shared with C06)", 2)
+	r.Rule("R06.6", "one id for cache and bookkeeping; CONTINUE keeps the source's current id (shared with C06)", 2)
+	r.Rule("R06.10", "a full resynchronisation does not carry the target's old position over to the new replication id (shared with C06)", 2)
+	ruleSyncMetaPaths(w, r)
+	r.Rule("R09.7", "the transaction mode the sender runs in is the output's CanTransaction (shared with C09)", 1)
+	if c != nil {
+		ruleTxnModeWiring(w, r, c)
 	}
 }
 
@@ -1247,6 +1267,10 @@ func c09(w *core.World, r *core.Report) {
 	r.Rule("R09.5", "MULTI ≺ commands ≺ checkpoint ≺ EXEC on one batcher (see R02.1)", 1)
 	if c != nil {
 		ruleBatchOrder(w, r, c, true)
+	}
+	r.Rule("R09.7", "the transaction mode the sender runs in is the output's CanTransaction, and nothing narrower", 1)
+	if c != nil {
+		ruleTxnModeWiring(w, r, c)
 	}
 	r.Rule("R09.6", "transactional mode: every flush of queued commands, in every iteration, is sent inside MULTI/EXEC (see R02.7)", 1)
 	if c != nil {
@@ -1851,4 +1875,42 @@ func (c *senderCtx) isLoopHelper(f *ssa.Function) bool {
 		}
 	}
 	return called
+}
+
+
+// ruleTxnModeWiring: every rule about transactional replay is stated "in
+// transactional mode", i.e. under the sender's mode parameter. The promise is
+// made for an output whose CanTransaction is set, so the parameter must be that
+// flag itself at every call: a conjunction with something else (a checkpoint
+// name being configured, resume being enabled) silently replays source
+// transactions piecemeal in the configurations where the other operand is false.
+func ruleTxnModeWiring(w *core.World, r *core.Report, c *senderCtx) {
+	txn := c.txnModeParam()
+	if txn == nil {
+		r.Unresolved(senderName+"/txn-mode-param", "the sender's transaction-mode parameter was not identified")
+		return
+	}
+	idx := -1
+	for i, p := range c.main.Params {
+		if p == txn {
+			idx = i
+		}
+	}
+	n := 0
+	for _, site := range callSitesOf(w, c.main) {
+		call, ok := site.(ssa.CallInstruction)
+		if !ok {
+			continue
+		}
+		args := call.Common().Args
+		if idx >= len(args) {
+			continue
+		}
+		n++
+		v := core.Unwrap(args[idx])
+		r.Check(fieldNameOfLoad(v) == "CanTransaction", shortName(core.FuncName(site.Parent()))+"/txn-mode-is-CanTransaction", site.Pos(), "the sender is started with a transaction mode other than the output's CanTransaction (%s): with the flag set but the other condition false, source MULTI/EXEC are dropped and size or ticker flushes cut through a source transaction", v.String())
+	}
+	if n == 0 {
+		r.Fail(senderName+"/txn-mode-is-CanTransaction", c.main.Pos(), "no call of the sender found")
+	}
 }
